@@ -316,7 +316,11 @@ class Server(object):
             if not self._encrypt_session():
                 tls_failure.send(self.io)
                 raise StopIteration()
+            # The session starts over: the client must send EHLO again and
+            # a mail transaction opened in clear text is abandoned.
             self.ehlo_as = None
+            self.have_mailfrom = None
+            self.have_rcptto = None
             self.extensions.drop('STARTTLS')
 
     def _command_AUTH(self, arg):
